@@ -274,6 +274,116 @@ Section Crypto.
     destruct pt as [|p0 pt']; [contradiction|]. rewrite Hok. reflexivity.
   Qed.
 
+
+  (* ---------- handshake ---------- *)
+
+  Lemma lookup_remove_same {A} k (m : list (skey * A)) : lookup k (remove k m) = None.
+  Proof.
+    induction m as [|[k' v] m IH]; cbn; [reflexivity|].
+    destruct (skey_eqb k k') eqn:E; [exact IH|]. cbn. rewrite E. exact IH.
+  Qed.
+
+  Lemma hs_auth_roundtrip src sig pub rec :
+    length src = 32%nat -> lenN sig <= 255 -> lenN pub <= 255 ->
+    dec_hs_auth (src ++ [lenN sig; lenN pub] ++ sig ++ pub ++ rec) = inr (src, sig, pub, rec).
+  Proof.
+    intros Hs Hsig Hpub. unfold dec_hs_auth, sizeofHandshakeAuthData.
+    assert (HL : lenN (src ++ [lenN sig; lenN pub] ++ sig ++ pub ++ rec) =
+                 34 + lenN sig + lenN pub + lenN rec).
+    { rewrite !lenN_app. rewrite (lenN_len src 32 Hs). rewrite !lenN_cons, lenN_nil. lia. }
+    rewrite HL. destruct (N.ltb_spec (34 + lenN sig + lenN pub + lenN rec) 34); [lia|].
+    rewrite (firstn_len_app 32 src _ Hs), (skipn_len_app 32 src _ Hs). cbn [app].
+    rewrite !lenN_app. destruct (N.ltb_spec (lenN sig + (lenN pub + lenN rec)) (lenN sig + lenN pub)); [lia|].
+    assert (N1 : N.to_nat (lenN sig) = length sig) by (unfold lenN; apply Nat2N.id).
+    assert (N2 : N.to_nat (lenN pub) = length pub) by (unfold lenN; apply Nat2N.id).
+    rewrite N1, N2.
+    rewrite (firstn_len_app (length sig) sig _ eq_refl), (skipn_len_app (length sig) sig _ eq_refl).
+    rewrite (firstn_len_app (length pub) pub _ eq_refl).
+    rewrite app_assoc. rewrite (skipn_len_app (length sig + length pub) (sig ++ pub) rec).
+    - reflexivity.
+    - apply app_length.
+  Qed.
+
+  Hypothesis ecdh_comm : forall a b, ecdh a (pub_of b) = ecdh b (pub_of a).
+  Hypothesis verify_sign : forall k h, sig_verify (pub_of k) h (sign k h) = true.
+  Hypothesis pub_valid_pub : forall k, pub_valid (pub_of k) = true.
+  Hypothesis sign_len : forall k h, lenN (sign k h) <= 255.
+  Hypothesis pub_len : forall k, lenN (pub_of k) <= 255.
+
+  Theorem handshake_roundtrip cA cB addrA addrB w nodeA nodeB eph rnd8 iv pt :
+    lookup (c_id cA, addrA) (c_handshakes cB) = Some w ->
+    n_pub nodeB = pub_of (c_priv cB) -> n_id nodeB = c_id cB ->
+    decode_handshake_record rec_seq rec_node (w_node w) (c_id cA)
+      (if w_seq w <? n_seq (c_node cA) then n_rec (c_node cA) else []) = inr nodeA ->
+    n_pub nodeA = pub_of (c_priv cA) ->
+    lenN (n_rec (c_node cA)) <= 300 ->
+    c_proto cA = c_proto cB -> length (c_proto cA) = 6%nat -> length (c_id cA) = 32%nat ->
+    length iv = 16%nat -> length rnd8 = 8%nat -> pt <> [] -> msg_ok pt = true ->
+    exists cA' P cB' sA sB,
+      encode_handshake cA (c_id cB) addrB
+        (mkChal (w_nonce w) (w_idnonce w) (w_seq w) (Some nodeB) (w_cdata w)) eph rnd8 iv pt
+        = Some (cA', P) /\
+      decode cB P addrA = (cB', DMsg (c_id cA) (Some nodeA) pt) /\
+      lookup (c_id cB, addrB) (c_sessions cA') = Some sA /\
+      lookup (c_id cA, addrA) (c_sessions cB') = Some sB /\
+      s_read sB = s_write sA /\ s_write sB = s_read sA /\
+      lookup (c_id cA, addrA) (c_handshakes cB') = None.
+  Proof.
+    intros LW HpubB HidB Hrec HpubA Hrl Hproto Hpl Hidl Hiv Hr8 Hpt Hok.
+    unfold V5wire.encode_handshake. cbn [w_node w_cdata w_seq].
+    set (cdata := w_cdata w). set (ephpub := pub_of eph).
+    set (idsig := sign (c_priv cA) (id_nonce_hash Hsha cdata ephpub (c_id cB))).
+    set (record := if w_seq w <? n_seq (c_node cA) then n_rec (c_node cA) else []) in *.
+    rewrite HpubB, HidB.
+    destruct (derive_keys ecdh kdf eph (pub_of (c_priv cB)) (c_id cA) (c_id cB) cdata) as [wk rk] eqn:EK.
+    set (nonce := mk_nonce (next_ctr 0) rnd8).
+    set (auth := c_id cA ++ [lenN idsig; lenN ephpub] ++ idsig ++ ephpub ++ record).
+    pose proof (sign_len (c_priv cA) (id_nonce_hash Hsha cdata ephpub (c_id cB))) as Ls. fold idsig in Ls.
+    pose proof (pub_len eph) as Lp. fold ephpub in Lp.
+    destruct (N.ltb_spec 255 (lenN idsig)); [lia|]. destruct (N.ltb_spec 255 (lenN ephpub)); [lia|].
+    cbn [orb].
+    assert (Lrec : lenN record <= 300).
+    { unfold record. destruct (w_seq w <? n_seq (c_node cA)); [exact Hrl|cbn; lia]. }
+    assert (La : lenN auth = 34 + lenN idsig + lenN ephpub + lenN record).
+    { unfold auth. rewrite !lenN_app. rewrite (lenN_len (c_id cA) 32 Hidl). rewrite !lenN_cons, lenN_nil. lia. }
+    unfold make_header. destruct (N.ltb_spec 65535 (lenN auth)); [lia|].
+    set (h := mkSH (c_proto cA) version flagHandshake nonce (lenN auth)).
+    set (hd := iv ++ enc_static h ++ auth).
+    set (ct := seal wk nonce pt hd).
+    set (sA := mkSess wk rk (next_ctr 0) nodeB).
+    eexists. eexists. eexists. exists sA. eexists.
+    split; [reflexivity|].
+    assert (Hwf : wf_sheader h).
+    { assert (Ln : length nonce = 12%nat)
+        by (unfold nonce, mk_nonce; rewrite app_length, be_fixed_len, Hr8; reflexivity).
+      unfold wf_sheader, h. cbn [h_proto h_version h_nonce h_authsize]. unfold version.
+      split; [exact Hpl|]. split; [lia|]. split; [exact Ln|lia]. }
+    pose proof (seal_len wk nonce pt hd) as Hsl. fold ct in Hsl.
+    assert (HR : parse_packet (c_id cB) (c_proto cB) (encode_raw (c_id cB) iv h auth ct) =
+                 inr (iv, enc_static h, h, auth, ct)).
+    { apply header_roundtrip;
+        [exact Hwf|exact Hiv|exact Hproto|unfold minVersion, h, version; cbn; lia
+        |reflexivity|right; unfold minMessageSize; lia|unfold minPacketSize; lia]. }
+    assert (HD : dec_hs_auth auth = inr (c_id cA, idsig, ephpub, record))
+      by (apply hs_auth_roundtrip; assumption).
+    (* B derives the same keys *)
+    assert (EKB : derive_keys ecdh kdf (c_priv cB) ephpub (c_id cA) (c_id cB) cdata = (wk, rk)).
+    { rewrite <- EK. unfold derive_keys, ephpub. rewrite ecdh_comm. reflexivity. }
+    split.
+    { unfold V5wire.decode. rewrite HR. cbn [h_flag h].
+      change (flagHandshake =? flagWhoareyou) with false.
+      change (flagHandshake =? flagHandshake) with true. cbn iota.
+      unfold V5wire.decode_handshake. rewrite HD, LW. fold cdata. fold record in Hrec. rewrite Hrec.
+      rewrite HpubA. unfold idsig. rewrite verify_sign. cbn [negb].
+      unfold ephpub at 1. rewrite pub_valid_pub. cbn [negb].
+      rewrite EKB. cbn [s_read h_nonce h]. unfold decrypt_message. fold hd. unfold ct.
+      rewrite open_seal. destruct pt as [|p0 pt']; [contradiction|]. rewrite Hok. reflexivity. }
+    split; [cbn; apply lookup_put_same|].
+    split; [cbn [c_sessions]; apply lookup_put_same|].
+    split; [reflexivity|]. split; [reflexivity|].
+    cbn [c_handshakes]. apply lookup_remove_same.
+  Qed.
+
   (* ---------- authenticity ---------- *)
 
   (* anything decode_message accepts opened under the read key of the session
